@@ -89,6 +89,9 @@ class RuntimeStartError(Exception):
     pass
 
 
+LOCK_WAITED = [0.0]
+
+
 def real_perm_data_batch(jobs, lock_wait_s):
     """jobs: list of (circuit, model).  Runs the real caching part of the SeqPAM workflow
     ([SetModelPass, ForEachBlockPass(EmbedAllPermutationsPass(QSearch))]) for all jobs on ONE
@@ -126,9 +129,25 @@ def real_perm_data_batch(jobs, lock_wait_s):
                 raise RuntimeStartError('machine-wide bqskit runtime lock busy for '
                                         f'{lock_wait_s} s')
             time.sleep(0.5)
-    proc = comp = None
+    LOCK_WAITED[0] = round(time.time() - t0, 1)
     old = signal.signal(signal.SIGALRM, on_alarm)
-    try:
+    state = {'proc': None, 'comp': None}
+
+    def stop():
+        try:
+            if state['comp'] is not None:
+                state['comp'].close()
+        except Exception:
+            pass
+        if state['proc'] is not None:
+            try:
+                state['proc'].send_signal(signal.SIGINT)
+                state['proc'].wait(timeout=3)
+            except Exception:
+                state['proc'].kill()
+        state['proc'] = state['comp'] = None
+
+    def start():
         # the attached server is started on free ports (the client port of `Compiler()` itself
         # is not configurable), then used like a detached one
         ports = []
@@ -139,31 +158,39 @@ def real_perm_data_batch(jobs, lock_wait_s):
             sk.close()
         launch = ('from bqskit.runtime.attached import start_attached_server; '
                   f'start_attached_server(3, port={ports[0]}, worker_port={ports[1]})')
-        proc = subprocess.Popen([sys.executable, '-W', 'ignore', '-c', launch],
-                                stdout=subprocess.DEVNULL, stderr=subprocess.DEVNULL)
-        signal.alarm(120 + 60 * len(jobs))
-        comp = Compiler('localhost', ports[0])
-        out = []
+        state['proc'] = subprocess.Popen([sys.executable, '-W', 'ignore', '-c', launch],
+                                         stdout=subprocess.DEVNULL, stderr=subprocess.DEVNULL)
+        state['comp'] = Compiler('localhost', ports[0])
+    out = []
+    restarts = 0
+    try:
         for (c, _), wf in zip(jobs, wfs):
-            oc, data = comp.compile(c, wf, request_data=True)
-            out.append((oc, data[ForEachBlockPass.key][-1]))
+            res = None
+            for attempt in range(2):
+                try:
+                    signal.alarm(240)
+                    if state['comp'] is None:
+                        start()
+                    oc, data = state['comp'].compile(c, wf, request_data=True)
+                    signal.alarm(0)
+                    res = (oc, data[ForEachBlockPass.key][-1])
+                    break
+                except (RuntimeError, OSError, ConnectionError, TimeoutError, EOFError,
+                        KeyError) as e:
+                    # the runtime died or did not answer (on a shared machine other users may
+                    # kill it): one fresh runtime per failed job, at most three in total
+                    signal.alarm(0)
+                    res = RuntimeStartError(f'{type(e).__name__}: {e}')
+                    stop()
+                    restarts += 1
+                    if restarts > 3:
+                        break
+            out.append(res)
         return out
-    except (RuntimeError, OSError, ConnectionError, TimeoutError, EOFError, KeyError) as e:
-        raise RuntimeStartError(f'{type(e).__name__}: {e}')
     finally:
         signal.alarm(0)
         signal.signal(signal.SIGALRM, old)
-        try:
-            if comp is not None:
-                comp.close()
-        except Exception:
-            pass
-        if proc is not None:
-            try:
-                proc.send_signal(signal.SIGINT)
-                proc.wait(timeout=3)
-            except Exception:
-                proc.kill()
+        stop()
         fcntl.flock(lockf, fcntl.LOCK_UN)
         lockf.close()
 
@@ -181,9 +208,17 @@ def run_real_cases(specs, lock_wait_s):
     try:
         prepared = real_perm_data_batch(jobs, lock_wait_s)
     except RuntimeStartError as e:
-        return [{'spec': sp, 'skipped': 'bqskit runtime unavailable: ' + str(e)[:80],
-                 'viol': [], 'lines': [], 'expect': [], 'stats': {}} for sp in specs]
-    return [run_pam_case(sp, prepared=pr) for sp, pr in zip(specs, prepared)]
+        prepared = [e] * len(specs)
+    out = []
+    for sp, pr in zip(specs, prepared):
+        if isinstance(pr, Exception) or pr is None:
+            out.append({'spec': sp, 'skipped': 'bqskit runtime unavailable: ' + str(pr)[:80],
+                        'viol': [], 'lines': [], 'expect': [], 'stats': {}})
+        else:
+            out.append(run_pam_case(sp, prepared=pr))
+    if out:
+        out[0]['lock_wait_s'] = LOCK_WAITED[0]
+    return out
 
 
 
